@@ -5,6 +5,7 @@
 use crate::bridge::*;
 use crate::dev::Dev;
 use crate::engine::*;
+use crate::iterprog::{self, Prog, PROGS};
 use crate::model::*;
 use crate::refmodel::codec::{self, MBody, MRecord};
 use crate::structs::*;
@@ -152,6 +153,8 @@ pub struct Obs {
     pub iter: Vec<Result<MRead, String>>,
     pub ended: bool,
     pub nth: Vec<Option<Result<MRead, String>>>,
+    /// (state the reader was brought into: 0 fresh, 1 after one next(), 2 after seek(1); program; what its calls returned)
+    pub progs: Vec<(u8, Prog, crate::iterprog::Out<Result<MRead, String>>)>,
 }
 
 pub fn observe(case: &Case, shp: &[u8], shx: &[u8]) -> Result<Obs, String> {
@@ -188,7 +191,76 @@ pub fn observe_chunked(case: &Case, shp: &[u8], shx: &[u8], chunk: usize) -> Res
     }
     let mut r2 = ShapeReader::with_shx(dev(shp), dev(shx)).map_err(|e| err_kind(&e))?;
     let nth = (0..case.n + 1).map(|i| r2.read_nth_shape(i).map(|x| x.map(|s| from_lib(&s)).map_err(|e| err_kind(&e)))).collect();
-    Ok(Obs { count, iter, ended, nth })
+    // the iterator driven through the std adaptors (which an iterator type may override), from three reader states
+    let mut progs = vec![];
+    let mut r3 = ShapeReader::with_shx(dev(shp), dev(shx)).map_err(|e| err_kind(&e))?;
+    for pre in 0..3u8 {
+        for p in PROGS {
+            let start_ok = match pre {
+                0 => r3.seek(0).is_ok(),
+                1 => r3.seek(0).is_ok() && r3.iter_shapes().next().is_some(),
+                _ => r3.seek(1).is_ok(),
+            };
+            if !start_ok {
+                continue;
+            }
+            let o = iterprog::run(r3.iter_shapes(), p, case.n + 3);
+            progs.push((pre, p, iterprog::Out { answers: o.answers.into_iter().map(|a| a.map(|x| x.map(|s| from_lib(&s)).map_err(|e| err_kind(&e)))).collect(), count: o.count }));
+        }
+    }
+    Ok(Obs { count, iter, ended, nth, progs })
+}
+
+/// The by-path routes (`read_shapes`, `read_shapes_as`, `ShapeReader::from_path`): the .shx next to the
+/// .shp is an index that was supplied.  Returns (route, items or error).
+pub fn observe_disk(case: &Case, shp: &[u8], shx: &[u8]) -> Vec<(String, Result<Vec<Result<MRead, String>>, String>)> {
+    let dir = super::c01_c02::scratch_dir();
+    let tid: String = format!("{:?}", std::thread::current().id()).chars().filter(|c| c.is_ascii_digit()).collect();
+    let path = dir.join(format!("c14-{}.shp", tid));
+    std::fs::write(&path, shp).expect("scratch write");
+    std::fs::write(path.with_extension("shx"), shx).expect("scratch write");
+    let mut out = vec![];
+    let conv = |v: Vec<shapefile::Shape>| v.iter().map(|s| Ok(from_lib(s))).collect::<Vec<_>>();
+    out.push(("read_shapes(path)".to_string(), shapefile::read_shapes(&path).map(conv).map_err(|e| err_kind(&e))));
+    out.push((
+        "read_shapes_as(path)".to_string(),
+        crate::with_ty!(case.ty, T => shapefile::read_shapes_as::<_, T>(&path).map(|v| v.into_iter().map(|s| Ok(from_lib(&shapefile::Shape::from(s)))).collect::<Vec<_>>()).map_err(|e| err_kind(&e)), Err("null".to_string())),
+    ));
+    out.push((
+        "ShapeReader::from_path(path).iter_shapes".to_string(),
+        ShapeReader::from_path(&path).map_err(|e| err_kind(&e)).map(|mut r| r.iter_shapes().take(case.n + 3).map(|x| x.map(|s| from_lib(&s)).map_err(|e| err_kind(&e))).collect()),
+    ));
+    out.push((
+        "ShapeReader::from_path(path).read".to_string(),
+        ShapeReader::from_path(&path).map_err(|e| err_kind(&e)).and_then(|mut r| r.read().map(conv).map_err(|e| err_kind(&e))),
+    ));
+    let _ = std::fs::remove_file(&path);
+    let _ = std::fs::remove_file(path.with_extension("shx"));
+    out
+}
+
+pub fn judge_disk(case: &Case, recs: &[MRecord], routes: &[(String, Result<Vec<Result<MRead, String>>, String>)]) -> Vec<(String, String)> {
+    let tag = order_class(case);
+    let mut out = vec![];
+    for (route, r) in routes {
+        match r {
+            Err(e) => out.push((format!("by-path:{}:failed[{}]", route, tag), format!("{} (physical order {:?}, gaps {:?})", e, case.perm, case.gaps))),
+            Ok(items) => {
+                let ok = items.len() == case.n && items.iter().enumerate().all(|(i, it)| matches!(it, Ok(got) if super::c03::cmp_record(&recs[i], got).is_none()));
+                if !ok {
+                    let shown: Vec<String> = items.iter().map(|a| match a {
+                        Err(e) => format!("Err({})", e),
+                        Ok(got) => match recs.iter().position(|r| super::c03::cmp_record(r, got).is_none()) {
+                            Some(k) => format!("entry {}", k),
+                            None => "a shape no entry addresses".to_string(),
+                        },
+                    }).collect();
+                    out.push((format!("by-path:{}:not-the-indexed-records[{}]", route, tag), format!("returned {:?} for {} index entries (physical order {:?}, gaps {:?})", shown, case.n, case.perm, case.gaps)));
+                }
+            }
+        }
+    }
+    out
 }
 
 fn order_class(case: &Case) -> &'static str {
@@ -247,6 +319,32 @@ pub fn judge(case: &Case, recs: &[MRecord], o: &Result<Obs, String>) -> Vec<(Str
             out.push((format!("random-access-beyond-end[{}]", tag), format!("read_nth_shape({}) is Some", i)));
         }
     }
+    for (pre, p, o) in &o.progs {
+        let start = if *pre == 0 { 0 } else { 1 };
+        let (want, _) = iterprog::reference(start, case.n, *p, case.n + 3);
+        let same = want.count == o.count
+            && want.answers.len() == o.answers.len()
+            && want.answers.iter().zip(&o.answers).all(|(w, g)| match (w, g) {
+                (None, None) => true,
+                (Some(k), Some(Ok(got))) => super::c03::cmp_record(&recs[*k], got).is_none(),
+                _ => false,
+            });
+        if !same {
+            let shown: Vec<String> = o.answers.iter().map(|a| match a {
+                None => "None".to_string(),
+                Some(Err(e)) => format!("Err({})", e),
+                Some(Ok(got)) => match recs.iter().position(|r| super::c03::cmp_record(r, got).is_none()) {
+                    Some(k) => format!("entry {}", k),
+                    None => "a shape no entry addresses".to_string(),
+                },
+            }).collect();
+            out.push((
+                format!("adaptor-iteration[{}]", tag),
+                format!("{} on an iteration {}: returned {:?} count {:?}, the entries in index order give {:?} count {:?}", p.name(), ["of a fresh reader", "after one next()", "after seek(1)"][*pre as usize], shown, o.count, want.answers, want.count),
+            ));
+            break;
+        }
+    }
     out
 }
 
@@ -281,7 +379,7 @@ fn run_case(case: &Case, ctx: &mut Ctx) {
             return;
         }
     };
-    ctx.lib_calls += 4 + 2 * case.n as u64;
+    ctx.lib_calls += 4 + 2 * case.n as u64 + 3 * PROGS.len() as u64;
     let mut oh = Fnv::new();
     if let Ok(o) = &obs {
         oh.u64(o.iter.len() as u64);
@@ -298,6 +396,18 @@ fn run_case(case: &Case, ctx: &mut Ctx) {
     }
     for (sig, d) in judge(case, &recs, &obs) {
         ctx.violation(sig, || case.to_json(), || d);
+    }
+    // the by-path routes, for the cases whose fillers are {none, 8 bytes, decoy record}
+    if case.nontrivial() && case.n >= 2 && case.fill_byte == 0 && case.gaps.iter().all(|g| matches!(g, 0 | 2 | 4)) {
+        match catch(|| observe_disk(case, &shp, &shx)) {
+            Ok(routes) => {
+                ctx.lib_calls += 6;
+                for (sig, d) in judge_disk(case, &recs, &routes) {
+                    ctx.violation(sig, || case.to_json(), || d);
+                }
+            }
+            Err(p) => ctx.violation(format!("by-path:{}", p.sig()), || case.to_json(), || p.msg.clone()),
+        }
     }
     // the same file through sources that return fewer bytes than asked (as a buffered file does at a refill)
     if case.nontrivial() {
@@ -340,11 +450,22 @@ fn selftest() -> (u64, u64) {
     t(&|o| o.count = Ok(4));
     t(&|o| o.ended = false);
     t(&|o| o.nth[3] = o.nth[0].clone());
+    t(&|o| {
+        let k = o.progs.iter().position(|(pre, p, _)| *pre == 2 && *p == Prog::Skip(1)).unwrap();
+        o.progs[k].2.answers.remove(0);
+    });
+    t(&|o| {
+        let k = o.progs.iter().position(|(pre, p, _)| *pre == 1 && *p == Prog::Count).unwrap();
+        o.progs[k].2.count = Some(3);
+    });
     (inj, det)
 }
 
 pub fn check(tier: Tier) -> i32 {
     let started = Instant::now();
+    if !super::c01_c02::scratch_usable() {
+        return 2;
+    }
     let types: Vec<Ty> = ALL13.to_vec();
     let ns: Vec<usize> = tier.pick(vec![1, 2, 3], vec![1, 2, 3, 4]);
     let mut cases = vec![];
@@ -439,13 +560,14 @@ pub fn check(tier: Tier) -> i32 {
         }
     }
     let st = selftest();
+    super::c01_c02::cleanup_scratch();
     finish(
         RunInfo {
             prop: "C14",
             tier,
             level: "model_checking",
             engine: "E2 enumerator over RefCodec-built .shp/.shx pairs (all permutations x all filler combinations), read by the real ShapeReader::with_shx",
-            rule: "types x n records of pairwise different size x every permutation of physical order against index order x every combination of fillers {none, 2, 8, 14 bytes, a complete valid decoy record} before / between / after x filler byte {0x00, 0xff}; header length covers the whole file; every non-trivial case again through sources that return at most 1 resp. 7 bytes per read; plus records at byte offsets beyond 2^31 and 3*2^30 on a sparse source (physical and permuted index order); non-trivial = some filler or physical order != index order",
+            rule: "types x n records of pairwise different size x every permutation of physical order against index order x every combination of fillers {none, 2, 8, 14 bytes, a complete valid decoy record} before / between / after x filler byte {0x00, 0xff}; header length covers the whole file; every non-trivial case again through sources that return at most 1 resp. 7 bytes per read; the iterator also driven through 14 programs of std adaptors (nth, skip, step_by, last, count) from 3 reader states; cases with fillers in {none, 8 bytes, decoy} also as files on disk through read_shapes, read_shapes_as, ShapeReader::from_path; plus records at byte offsets beyond 2^31 and 3*2^30 on a sparse source (physical and permuted index order); non-trivial = some filler or physical order != index order",
             bounds: json!({"types": types.iter().map(|t| t.name()).collect::<Vec<_>>(), "n": ns, "gap_kinds": 5, "cases": cases.len()}),
             exhaustive: true,
             assumptions: vec!["fillers of odd length are impossible (offsets are in 16-bit words)".into()],
@@ -465,10 +587,19 @@ pub fn replay(v: &Value) -> Vec<(String, String)> {
         None => vec![("bad-replay-file".into(), "cannot parse case".into())],
         Some(case) => {
             let (shp, shx, recs) = build(&case);
-            match catch(|| observe(&case, &shp, &shx)) {
+            let mut v = match catch(|| observe(&case, &shp, &shx)) {
                 Ok(o) => judge(&case, &recs, &o),
                 Err(p) => vec![(p.sig(), p.msg)],
+            };
+            if let Ok(routes) = catch(|| observe_disk(&case, &shp, &shx)) {
+                v.extend(judge_disk(&case, &recs, &routes));
             }
+            for chunk in [1usize, 7] {
+                if let Ok(o) = catch(|| observe_chunked(&case, &shp, &shx, chunk)) {
+                    v.extend(judge(&case, &recs, &o).into_iter().map(|(s, d)| (format!("short-reads:{}", s), d)));
+                }
+            }
+            v
         }
     }
 }
